@@ -13,6 +13,8 @@ use std::sync::{Arc, Mutex as StdMutex, Weak};
 use std::time::Duration;
 
 pub const THUNK_THR: usize = 10_000;
+/// pseudo client-thread index of dispatches made by middleware hooks of store s: MW_THR + s
+pub const MW_THR: usize = 9_000;
 
 #[derive(Clone, Debug, PartialEq, Eq, Hash)]
 pub enum BlockOn {
@@ -211,6 +213,7 @@ pub struct World {
     sub_objs: Vec<StdMutex<Option<SubObj>>>,
     joins: Vec<StdMutex<Option<simrt::thread::JoinHandle<()>>>>,
     pub act_store: BTreeMap<ActId, usize>,
+    mw_calls: std::sync::atomic::AtomicUsize,
 }
 
 fn to_policy(p: Policy) -> BackpressurePolicy {
@@ -261,6 +264,9 @@ pub fn act_store_map(p: &Program) -> BTreeMap<ActId, usize> {
                 for mw in sc.mw.values() {
                     if let Some(e) = &mw.thunk {
                         add.push((e.clone(), *s));
+                    }
+                    if let Some(b) = mw.dispatch {
+                        add.push((EffSpec { id: 0, kind: EffKind::Action(b), panic: false, gate: None, sleep_ms: 0 }, *s));
                     }
                 }
             }
@@ -427,6 +433,13 @@ impl ScriptedMiddleware {
             if let Some(t) = sc.thunk.clone() {
                 dispatcher.dispatch_thunk(make_thunk(self.w.clone(), self.store, t));
             }
+            if let Some(b) = sc.dispatch {
+                let idx = w.mw_calls.fetch_add(1, std::sync::atomic::Ordering::Relaxed);
+                let thr = MW_THR + self.store;
+                w.log(K::Inv { thr, idx, op: OpK::Dispatch { store: self.store, act: b, via: Via::Disp } });
+                let r = dispatcher.dispatch(Act { id: b });
+                w.log(K::Ret { thr, idx, res: if r.is_ok() { Res::Ok } else { Res::Err } });
+            }
         }
         let mut removed = 0;
         if let Some(effects) = effects {
@@ -537,6 +550,7 @@ impl World {
             sub_objs: prog.subs.iter().map(|_| StdMutex::new(None)).collect(),
             joins: prog.threads.iter().map(|_| StdMutex::new(None)).collect(),
             act_store,
+            mw_calls: std::sync::atomic::AtomicUsize::new(0),
             hist,
             prog,
         })
@@ -833,7 +847,8 @@ impl World {
             }
             Op::Stop { store } => {
                 let Some(s) = self.store(*store) else { return Res::Skipped };
-                if self.prog.stores[*store].ctor == 9 {
+                // both spellings of stop(): the inherent method and <dyn Store>::stop
+                if (self.prog.regs + self.prog.threads.len()) % 2 == 1 {
                     let d: &dyn Store<St, Act> = &*s;
                     d.stop();
                 } else {
